@@ -90,6 +90,9 @@ var templates = []tmpl{
 		`module %N1 { ` + hdr("%N1") + ` import m { prefix m; } augment /m:c/m:ch/m:x/m:x { container g1 { leaf l1 { type string; } } } }`,
 		`module %N2 { ` + hdr("%N2") + ` import m { prefix m; } import %N1 { prefix p1; } augment /m:c/m:ch/m:x/m:x/p1:g1 { container g2 { } } }`,
 		`module %N3 { ` + hdr("%N3") + ` import m { prefix m; } import %N1 { prefix p1; } import %N2 { prefix p2; } augment /m:c/m:ch/m:x/m:x/p1:g1/p2:g2 { leaf deep { type string; } } }`}},
+	{name: "augment-of-a-choice-brings-a-choice", augment: true, clean: true, present: [][]string{{"c", "how", "brought", "brought", "b1", "b1"}, {"c", "how", "transport", "transport", "udp", "udp", "port"}, {"c", "how", "a", "a"}}, files: []string{
+		`module m { ` + hdr("m") + ` container c { choice how { leaf a { type string; } } %PAD } }`,
+		`module b { ` + hdr("b") + ` import m { prefix m; } grouping gch { choice transport { leaf tcp { type string; } container udp { leaf port { type string; } } } } augment /m:c/m:how { choice brought { leaf b1 { type string; } case b2 { leaf b2l { type string; } } } uses gch; } }`}},
 	{name: "augment-path-leaves-out-an-explicit-case", augment: true, files: []string{
 		`module m { ` + hdr("m") + ` container top { choice ch { case c1 { container cont { leaf in { type string; } } } case c2 { leaf other { type string; } } } %PAD } rpc r { input { choice how { case by-name { container sel { leaf n { type string; } } } } } } }`,
 		`module b { ` + hdr("b") + ` import m { prefix m; } augment %NOCASE { leaf bad { type string; } } }`}},
